@@ -451,7 +451,9 @@ impl Db {
                 // wait until every thread of *this* instance has exited (bounded; background threads poll every second)
                 let start = Instant::now();
                 while token.strong_count() > 0 {
-                    if start.elapsed() > Duration::from_secs(20) {
+                    // an instance whose flush thread died (its panic is on record) never goes away: do not wait for it
+                    let zombie = crate::guard::peek_panics().iter().any(|p| p.in_repo());
+                    if start.elapsed() > Duration::from_secs(if zombie { 3 } else { 20 }) {
                         ok = false;
                         break;
                     }
